@@ -497,6 +497,8 @@ def extra_tasks(pid):
         # multi-step operations of the layers above are one transaction block each (so that a kill leaves them
         # applied entirely or not at all): Deque.append / appendleft at maxlen, Index.popitem
         ts += [('contracts.c11', 'appends', ()), ('contracts.c12', 'popitem', ())]
+        # "... debris that a repair removes": the contract of check(fix=True) (C17)
+        ts += [('contracts.c17', 'check_task', (True,))]
     if pid in ('C05', 'C06', 'C07'):
         ts += [('contracts.traces', 'transact_block', (pid,))]
     if pid == 'C08':
@@ -512,6 +514,9 @@ def extra_tasks(pid):
 def post_process(pid, results):
     out = []
     for r in results:
+        if pid == 'C07' and r['name'].startswith('C17.'):
+            r = Result('C07.repair.' + r['name'][4:], r['kind'], r['verdict'],
+                       **{k: v for k, v in r.items() if k not in ('name', 'kind', 'verdict')})
         if pid == 'C07' and r['name'].startswith(('C11.', 'C12.')):
             r = Result('C07.layers.' + r['name'][4:], r['kind'], r['verdict'],
                        **{k: v for k, v in r.items() if k not in ('name', 'kind', 'verdict')})
